@@ -559,8 +559,11 @@ class Model(Object):
 
             # remove reference to the metabolite in all groups
             associated_groups = self.get_associated_groups(x)
+            context = get_context(self)
             for group in associated_groups:
                 group.remove_members(x)
+                if context:
+                    context(partial(group.add_members, [x]))
 
             if not destructive:
                 for the_reaction in list(x._reaction):  # noqa W0212
@@ -866,6 +869,8 @@ class Model(Object):
                 associated_groups = self.get_associated_groups(reaction)
                 for group in associated_groups:
                     group.remove_members(reaction)
+                    if context:
+                        context(partial(group.add_members, [reaction]))
 
     def _set_objective_coefficients(self, coefficients: Dict) -> None:
         """Set linear coefficients on the current solver objective."""
